@@ -1,7 +1,7 @@
 /-
   Oracle commands for C19 (chatPrompt + template.Execute + the runner's tag resolution):
 
-    chat <variant> <mllama 0|1> <proj 0|1|2> <limit> <tokmode> <srchex> <tmpl>
+    chat <variant> <mllama 0|1> <proj 0|1|2> <limit> <tokmode> <srchex> <tmpl> <ntools> <toolsJSONhex>
          <L> {<role s|u|a|t|o> <contenthex> <nimgs> {<src> <ok 0|1>}*}*
          <ncosts> <cost>*
       variant = f4fixed + 2*lmode + 8*efix   (variant of the tree under test, probed by the driver)
@@ -18,6 +18,8 @@
       generic run).
       -> panic:empty | err:too-many-images | err:preprocess | err:template | err:tokenize | panic:template-cut
        | ok q=<tokenizer calls> imgs=<id:src:pre,…|-> msgs=<hex;…> prompt=<hex|?> costs=<ok|BAD@i|?>
+            tok=<byte lengths of the strings given to the tokenizer, in call order|-|?>
+         (toolsJSON = api.Tools.String() of the request's tools: part of every candidate render and of the final one)
          (msgs = contents of ALL messages after the call: chatPrompt rewrites msgs[n:] in place)
 
     resolve <prompthex> <nimgs> {<id>}*
@@ -26,7 +28,7 @@
       -> ok <pos,…|-> | err:invalid-image-index
 
     hchat <variant> <default num_ctx> <model PARAMETER num_ctx|-> <request num_ctx|-> <numParallel>
-          <srchex> <tmpl> <sysHex> <nModel> {msg}* <nReq> {msg}*
+          <srchex> <tmpl> <ntools> <toolsJSONhex> <sysHex> <nModel> {msg}* <nReq> {msg}*
       POST /api/chat end to end (real ChatHandler, real Scheduler incl. its load path, mock runner whose
       tokenizer is strings.Fields): the model's MESSAGEs, SYSTEM, TEMPLATE and num_ctx PARAMETER, the
       request's messages and num_ctx option, the number of parallel slots the scheduler loaded with
@@ -71,6 +73,7 @@ def pFld : TP Fld := do
     | "Messages" => .messages
     | "Role" => .role
     | "Content" => .content
+    | "Tools" => .tools
     | _ => .other)
 
 /-- recursive-descent parsers with fuel (the number of tokens bounds the depth) -/
@@ -174,6 +177,9 @@ def handle (toks : List String) : Option String :=
       let mode ← nat
       let _src ← tok      -- template source (for replay); the model executes the parsed tree
       let tmpl ← pTmpl rest.length
+      let ntools ← nat
+      let toolsJson ← hex
+      let tools : ToolsV := ⟨toolsJson, ntools != 0⟩
       let msgs ← listOf pMsg
       let costs ← listOf pCost
       let cfg : Cfg := ⟨variant % 2 != 0, mllama != 0, proj, limit⟩
@@ -193,21 +199,28 @@ def handle (toks : List String) : Option String :=
           let all := msgs.take n ++ ret
           let ms := joinWith ";" (all.map fun m => hexOrDash (renderPieces m.content))
           match tmpl with
-          | none => s!"ok q={q} imgs={showImgs imgs} msgs={ms} prompt=? costs=?"
+          | none => s!"ok q={q} imgs={showImgs imgs} msgs={ms} prompt=? costs=? tok=?"
           | some t =>
             let mine := (List.range (msgs.length - 1)).map fun i =>
-              match renderAt tv t msgs i with
+              match renderAt tv t msgs tools i with
               | .ok b => if tokFail = some i then CostTok.k else CostTok.n (tokenCount mode b)
               | .err .panicCut => CostTok.p
               | .err _ => CostTok.e
             let chk := match firstBad costs mine 0 with
               | none => "ok"
               | some i => s!"BAD@{i}"
-            match chatPromptT cfg tv t mode msgs tokFail with
+            -- byte lengths of the strings the tokenizer is called with, in call order
+            let L := msgs.length
+            let toks := (List.range q).map fun k =>
+              match renderAt tv t msgs tools (L - 2 - k) with
+              | .ok b => toString b.length
+              | .err _ => "E"
+            let tokS := if toks.isEmpty then "-" else joinWith "," toks
+            match chatPromptT cfg tv t mode msgs tokFail tools with
             | .ok q' n' _ _ imgs' p =>
               if q' = q ∧ n' = n ∧ imgs' = imgs then
-                s!"ok q={q} imgs={showImgs imgs} msgs={ms} prompt={hexOrDash p} costs={chk}"
-              else s!"ok q={q} imgs={showImgs imgs} msgs={ms} prompt=TEMPLATE-MODEL-DISAGREES costs={chk}"
+                s!"ok q={q} imgs={showImgs imgs} msgs={ms} prompt={hexOrDash p} costs={chk} tok={tokS}"
+              else s!"ok q={q} imgs={showImgs imgs} msgs={ms} prompt=TEMPLATE-MODEL-DISAGREES costs={chk} tok={tokS}"
             | .tmplErr e => showErr e
             | .tokErr => "err:tokenize"
             | _ => "template-model-disagrees")) rest
@@ -231,6 +244,9 @@ def handle (toks : List String) : Option String :=
       let par ← nat
       let _src ← tok
       let tmpl ← pTmpl rest.length
+      let ntools ← nat
+      let toolsJson ← hex
+      let tools : ToolsV := ⟨toolsJson, ntools != 0⟩
       let sys ← hex
       let mm ← listOf pMsg
       let req ← listOf pMsg
@@ -242,7 +258,7 @@ def handle (toks : List String) : Option String :=
         | _, none => "opaque"
         | _, some t =>
           let loaded := s!"loaded={runnerNumCtx lim par}"
-          match chatHandler (variant % 2 != 0) false tv t dflt (optInt mp) (optInt ro) par mm sys req with
+          match chatHandler (variant % 2 != 0) false tv t dflt (optInt mp) (optInt ro) par mm sys req tools with
           | .panicEmpty => "panic:empty"
           | .errTooMany => "err:too-many-images"
           | .errPreprocess => "err:preprocess"
